@@ -46,6 +46,9 @@ def check(run, prog, tier):
     run.rule("C20-F", "every block helper records the block it hands out, on the distributed and on the serial path (the "
                       "functions that collect the results read it)", minimum=6)
     rule_F(run, prog)
+    run.rule("C20-G", "sums are taken exactly where the work was divided: the reductions act under the same condition under which "
+                      "the helpers hand out blocks (parallel_level == 1) and pass through everywhere else", minimum=2)
+    rule_G(run, prog)
 
 
 def rule_F(run, prog):
@@ -488,3 +491,39 @@ def rule_C(run, prog):
                        message="%s must be a fresh zero array (or a caller-provided accumulator) before the "
                                "region" % arr, loc=f.loc(), sample={"site": f.short, "fresh_zeros": bool(alloc),
                                                                     "parameter": is_param})
+
+
+def rule_G(run, prog):
+    """'... so that sum-reduced results equal the serial result': the block helpers divide the range among the processes
+    only when config.parallel_level == 1; in a nested region every process gets the whole range.  A reduction must then do
+    nothing: summing over the processes what every process has computed in full multiplies it by the number of processes.
+    So in each reduction of DistributedConfiguration the first collective call is dominated by an early return whose test
+    is exactly `self.parallel_level != 1` (the negation of the helpers' condition); any other state flag (inparallel, which
+    stays set at every depth) is a different condition."""
+    rid = "C20-G"
+    cls = prog.cls("quantarhei.core.parallel.DistributedConfiguration")
+    n = 0
+    for nme in ("reduce", "allreduce"):
+        f = cls.methods[nme]
+        prog.consulted.add(f.relpath)
+        coll = [x for x in walk_no_nested(f.node) if isinstance(x, ast.Call) and isinstance(x.func, ast.Attribute)
+                and x.func.attr in ("Reduce", "Allreduce", "reduce", "allreduce") and norm(x.func.value) == "self.comm"]
+        if not coll:
+            raise AnalysisError("%s: collective call not found" % f.short)
+        n += 1
+        guards = [st for st in f.node.body if isinstance(st, ast.If) and len(st.body) == 1 and isinstance(st.body[0], ast.Return)
+                  and not st.orelse and st.lineno < coll[0].lineno]
+        tests = [norm(g.test).replace(" ", "") for g in guards]
+        ok = "self.parallel_level!=1" in tests and len(tests) == 1
+        run.obligation(rid, f.short, ok, key="acts-where-work-was-divided",
+                       message="%s passes through under %s; the helpers divide the work exactly when parallel_level == 1: under any "
+                               "other condition a nested region sums results every process computed in full (times the number of "
+                               "processes), or skips the sum of divided work" % (f.short, tests or "no condition"),
+                       loc=f.loc(guards[0] if guards else coll[0]), sample={"early_returns": tests})
+    # the helpers' own condition
+    for nme in ("block_distributed_range", "block_distributed_list", "block_distributed_array"):
+        h = prog.func("quantarhei.core.parallel." + nme)
+        top = [x for x in h.node.body if isinstance(x, ast.If) and "parallel_level" in norm(x.test)]
+        ok = len(top) == 1 and norm(top[0].test).replace(" ", "") == "config.parallel_level==1"
+        run.obligation(rid, nme, ok, key="divides-at-level-1", message="%s no longer divides the work exactly at parallel_level == 1" % nme,
+                       loc=h.loc(top[0] if top else h.node))
